@@ -111,12 +111,28 @@ class _Names(dict):
         return default
 
 
-def deliver_all(levels, res: Result, engine="sync", extra_events=()):
+def machine_via_python(levels, fired):
+    """The same machine written with the Python front-end (State objects, build_machine)."""
+    from xstate_statemachine import State, build_machine
+    from xstate_statemachine import pythonic as py
+    cfg = build(levels)
+    ons = [cfg["states"]["p"]["states"]["c"].get("on"), cfg["states"]["p"].get("on"), cfg.get("on")]
+    c = State("c", initial=True, **({"on": ons[0]} if ons[0] else {}))
+    p = State("p", initial=True, states=[c], **({"on": ons[1]} if ons[1] else {}))
+    root = State("", on=ons[2]) if ons[2] else None
+    names = sorted({a for on in ons if on for d in on.values() if d for a in d.get("actions", [])})
+    acts = [py.action(n)(lambda i, c_, e, a, _k=n: fired.append(_k)) for n in names]
+    grds = [py.guard("gT")(lambda c_, e: True), py.guard("gF")(lambda c_, e: False),
+            py.guard("gp")(lambda c_, e, params: bool(params["v"]))]
+    return build_machine(id="m", states=[p], actions=acts, guards=grds, root=root)
+
+
+def deliver_all(levels, res: Result, engine="sync", extra_events=(), python=False):
     fired = []
     logic = MachineLogic(actions=_Names(fired),
                          guards={"gT": lambda c, e: True, "gF": lambda c, e: False,
                                  "gp": lambda c, e, params: bool(params["v"])})
-    machine = create_machine(build(levels), logic=logic)
+    machine = machine_via_python(levels, fired) if python else create_machine(build(levels), logic=logic)
     results = {}
     evs = list(ETYPES) + list(extra_events)
     if engine == "sync":
@@ -311,6 +327,124 @@ def internal_cases(res: Result):
             run_virtual(body)
 
 
+def internal_exact_on_keys(res: Result):
+    """An engine-raised event still has a NAME: an identical key in a state's `on` map (the state that
+    raised it or an ancestor) is an exact descriptor and handles it; `null` there forbids it for the
+    ancestors; partial keys and '*' next to it stay blind."""
+    fired = []
+
+    def mk(n):
+        return lambda i, c, e, a, _n=n: fired.append(_n)
+
+    def svc_ok(i, c, e):
+        return 7
+
+    def svc_bad(i, c, e):
+        raise RuntimeError("boom")
+
+    async def svc_later(i, c, e):
+        import asyncio
+        await asyncio.sleep(0.003)
+        return 8
+    fams = {
+        "done.invoke": ("done.invoke.I1", {"invoke": {"src": "ok", "id": "I1"}}),
+        # (a failure nobody declares onError for fails the machine, and done.state.* is raised only
+        #  for states that declare onDone - C09/C10: those two families have no on-key-only form)
+        "done.invoke/slow": ("done.invoke.I3", {"invoke": {"src": "ok_later", "id": "I3"}}),
+    }
+    blind = {"*": {"actions": ["wild"]}, "done.*": {"actions": ["partial"]}, "error.*": {"actions": ["partial"]},
+             "done.invoke.*": {"actions": ["partial"]}, "error.platform.*": {"actions": ["partial"]},
+             "done.state.*": {"actions": ["partial"]}}
+    names = ["wild", "partial", "exact@state", "exact@parent", "exact@root", "second"]
+    for fam, (key, wbody) in fams.items():
+        for level in ("state", "parent", "root", "null@state", "null@parent", "guarded-first"):
+            for with_blind in (False, True):
+                work = dict(wbody)
+                won = dict(blind) if with_blind else {}
+                pon = dict(blind) if with_blind else {}
+                ron = {}
+                expect = None
+                if level == "state":
+                    won[key] = {"actions": ["exact@state"]}
+                    pon[key] = {"actions": ["exact@parent"]}
+                    expect = ["exact@state"]
+                elif level == "parent":
+                    pon[key] = {"actions": ["exact@parent"]}
+                    ron[key] = {"actions": ["exact@root"]}
+                    expect = ["exact@parent"]
+                elif level == "root":
+                    ron[key] = {"actions": ["exact@root"]}
+                    expect = ["exact@root"]
+                elif level == "null@state":
+                    won[key] = None
+                    pon[key] = {"actions": ["exact@parent"]}
+                    ron[key] = {"actions": ["exact@root"]}
+                    expect = []
+                elif level == "null@parent":
+                    pon[key] = None
+                    ron[key] = {"actions": ["exact@root"]}
+                    expect = []
+                else:
+                    won[key] = [{"guard": "no", "actions": ["exact@state"]}, {"actions": ["second"]}]
+                    expect = ["second"]
+                work["on"] = won
+                cfg = {"id": "m", "initial": "idle", "on": ron, "states": {
+                    "idle": {"on": {"GO": "w"}},
+                    "w": {"initial": "work", "on": pon, "states": {"work": work}}}}
+                for engine in ("sync", "async"):
+                    del fired[:]
+                    machine = create_machine(cfg, logic=MachineLogic(
+                        actions={n: mk(n) for n in names}, guards={"no": lambda c, e: False},
+                        services={"ok": svc_ok, "bad": svc_bad,
+                                  "ok_later": (svc_ok if engine == "sync" else svc_later)}))
+                    status = [None]
+                    if engine == "sync":
+                        it = SyncInterpreter(machine).start()
+                        it.send("GO")
+                        status[0] = it.status
+                        it.stop()
+                    else:
+                        async def body():
+                            import asyncio
+                            it2 = Interpreter(machine)
+                            await it2.start()
+                            await it2.send("GO")
+                            await drain(it2)
+                            await asyncio.sleep(0.01)
+                            await drain(it2)
+                            status[0] = it2.status
+                            await it2.stop()
+                        run_virtual(body)
+                    res.evaluations += 1
+                    res.count("internal-exact-on-key.%s.%s" % (engine, fam))
+                    res.hashes.add(h([fam, level, with_blind, engine]))
+                    got = list(fired)
+                    wit = {"engine": engine, "family": fam, "key": key, "level": level, "config": _jsonable_cfg(cfg),
+                           "fired": got, "expected": expect, "status": status[0]}
+                    if got != expect:
+                        stray = [g for g in got if g in ("wild", "partial")]
+                        if stray:
+                            kind = "internal-%s-caught-by-%s" % (fam, "wildcard" if "wild" in stray else "partial")
+                        elif expect == []:
+                            kind = "null-on-exact-internal-key-did-not-forbid/%s" % fam
+                        elif not got:
+                            kind = "exact-on-key-for-internal-%s-did-not-fire" % fam
+                        else:
+                            kind = "wrong-handler-for-internal-%s" % fam
+                        res.violation("C20:" + kind,
+                                      "%s: engine-raised %s with the exact key at %s%s ran %r, expected %r" % (
+                                          engine, key, level, " (next to partial keys and '*')" if with_blind else "",
+                                          got, expect), wit)
+
+
+def _jsonable_cfg(v):
+    if isinstance(v, dict):
+        return {k: _jsonable_cfg(x) for k, x in v.items()}
+    if isinstance(v, list):
+        return [_jsonable_cfg(x) for x in v]
+    return v
+
+
 def lookalikes(res: Result):
     """User-sent events that merely look internal: run, counted, not judged."""
     levels = [(("*", "plain"),), (("done.*", "plain"),), ()]
@@ -391,7 +525,10 @@ def run_chunk(spec):
             ks = xr.sample(KEYS, size)
             levels.append(tuple((k, xr.choice(XVARIANTS)) for k in sorted(ks, key=KEYS.index)))
         eng = "async" if i % 25 == 0 else "sync"
-        judge(levels, deliver_all(levels, res, eng), res, eng)
+        viapy = i % 4 == 3
+        judge(levels, deliver_all(levels, res, eng, python=viapy), res, eng + ("/python-front-end" if viapy else ""))
+        if viapy:
+            res.count("configs.through-the-python-front-end")
         res.count("configs.sampled-extended-guards")
         for lv in levels:
             vs = [v for _, v in lv]
@@ -401,6 +538,8 @@ def run_chunk(spec):
     if ci == 0:
         internal_cases(res)
         lookalikes(res)
+    if ci == 1:
+        internal_exact_on_keys(res)
     wd.disarm()
     return res.to_json()
 
@@ -409,9 +548,12 @@ def quota(counters, tier):
     out = []
     for k in ("configs.one-level", "configs.two-level", "configs.three-level",
               "configs.sampled-extended-guards", "configs.same-guard-name-different-verdict-in-one-state",
+              "configs.through-the-python-front-end",
               "deliveries.multi-match", "internal.sync.after", "internal.async.after",
               "internal.sync.done.state", "internal.async.done.invoke",
-              "internal.sync.error.platform", "internal.async.xstate.error.actor"):
+              "internal.sync.error.platform", "internal.async.xstate.error.actor",
+              "internal-exact-on-key.sync.done.invoke", "internal-exact-on-key.async.done.invoke",
+              "internal-exact-on-key.async.done.invoke/slow"):
         if counters.get(k, 0) == 0:
             out.append("monitor-never-reached:" + k)
     return out
